@@ -29,7 +29,7 @@ from . import rustsrc
 class WeaveError(Exception):
     """lost anchor / unsupported construct: exit 2, never an alarm"""
 
-DIRECTIVES = ('@unit', '@edition', '@verus-args', '@raw', '@item', '@opt', '@lit', '@re', '@dropline', '@template', '@uses', '@assumed')
+DIRECTIVES = ('@unit', '@edition', '@verus-args', '@raw', '@item', '@opt', '@lit', '@re', '@dropline', '@template', '@uses', '@assumed', '@import', '@import-lit', '@import-skip')
 
 @dataclass
 class ItemSpec:
@@ -61,7 +61,13 @@ def parse_vc(path):
             elif d == '@edition': u.edition = rest
             elif d == '@verus-args': u.verus_args += rest.split()
             elif d == '@raw':
-                cur = ('raw', []); u.sections.append(cur); mode = 'raw'
+                cur = ('raw', [], rest); u.sections.append(cur); mode = 'raw'
+            elif d == '@import':
+                cur = ('import', {'unit': rest, 'lits': [], 'skip': []}); u.sections.append(cur); mode = 'import'
+            elif d == '@import-lit':
+                cur[1]['lits'].append(json.loads(rest))
+            elif d == '@import-skip':
+                cur[1]['skip'].append(rest)
             elif d == '@item':
                 f, _, p = rest.partition(' ')
                 cur = ItemSpec(f, p.strip(), vc_line=no); u.sections.append(('item', cur)); mode = 'item'
@@ -290,9 +296,14 @@ def generate(repo, vc_path, out_path):
     cache = {}; log = []
     lines = []       # (origin, text)
     items = []
-    for kind, sec in u.sections:
+    imports = []
+    for section in u.sections:
+        kind, sec = section[0], section[1]
         if kind == 'raw':
             for no, t in sec: lines.append((('raw', no), t))
+        elif kind == 'import':
+            ilines, iinfo = import_interface(repo, os.path.join(os.path.dirname(vc_path), sec['unit'] + '.vc'), sec, cache)
+            lines += ilines; imports.append(iinfo)
         else:
             out, info = weave_item(repo, sec, cache, log)
             items.append(info)
@@ -309,7 +320,7 @@ def generate(repo, vc_path, out_path):
     raw_exec = []
     pending_attr = []
     for i, (origin, t) in enumerate(lines, 1):
-        m = OB_TAG.search(t)
+        m = OB_TAG.search(t) if origin[0] != 'import' else None
         if m:
             for tag in m.group(1).split():
                 obs.setdefault(tag, []).append(i)
@@ -331,14 +342,51 @@ def generate(repo, vc_path, out_path):
             if s and not s.startswith('#[') and not s.startswith('//'): pending_attr = []
     meta = {'unit': u.name, 'vc': vc_path, 'out': out_path, 'edition': u.edition, 'verus_args': u.verus_args,
             'items': items, 'rewrites': log, 'obligations': obs, 'trusted': trusted, 'raw_exec_fns': raw_exec,
-            'assumed': [{'file': f, 'item': p, 'note': n} for f, p, n in u.assumed],
+            'assumed': [{'file': f, 'item': p, 'note': n} for f, p, n in u.assumed], 'imports': imports,
             'origins': [list(o) for o, _ in lines], 'n_lines': len(lines)}
     return meta
+
+def import_interface(repo, vc_path, opts, cache):
+    """The interface of another unit: its raw text (specs, lemmas, shims) and real type declarations as they are, and each
+    of its real fns reduced to signature + contract with `external_body` -- i.e. exactly the contract that unit discharges."""
+    u = parse_vc(vc_path)
+    out = []; fns = []
+    log = []
+    for section in u.sections:
+        kind, sec = section[0], section[1]
+        if kind == 'raw':
+            label = section[2] if len(section) > 2 else ''
+            if label in ('header', 'footer') or label in opts['skip']: continue
+            for no, t in sec:
+                for a in opts['lits']:
+                    if a[0] in t: t = t.replace(a[0], a[1])
+                out.append((('import', u.name, no), t))
+        elif kind == 'import':
+            sub, _ = import_interface(repo, os.path.join(os.path.dirname(vc_path), sec['unit'] + '.vc'), sec, cache)
+            out += [((o[0], o[1], o[2]) if o[0] == 'import' else ('import', u.name, 0), t) for o, t in sub]
+        else:
+            woven, info = weave_item(repo, sec, cache, log)
+            if info['kind'] != 'fn':
+                out += [(('import', u.name, sec.vc_line), t) for _, t in woven]
+                continue
+            if sec.path in opts['skip']: continue
+            fns.append(sec.path)
+            pre = []
+            for o, t in woven:
+                if o[0] in ('code', 'code*') and t.strip().startswith('{'): break
+                pre.append(t)
+            ind = re.match(r'\s*', pre[0] if pre else '').group(0)
+            # attributes in front of the signature stay in front; external_body goes first
+            out.append((('import', u.name, sec.vc_line), ind + '#[verifier::external_body]'))
+            for t in pre: out.append((('import', u.name, sec.vc_line), t))
+            out.append((('import', u.name, sec.vc_line), ind + '{ unimplemented!() }'))
+    return out, {'unit': u.name, 'fns_imported_by_contract': fns}
 
 def learn_report(repo, vc_path):
     """Authoring aid: for every item print whether the template's baseline lines equal the extraction."""
     u = parse_vc(vc_path); cache = {}; ok = True
-    for kind, sec in u.sections:
+    for section in u.sections:
+        kind, sec = section[0], section[1]
         if kind != 'item': continue
         log = []
         try:
